@@ -101,8 +101,11 @@ def _walk_part(args):
             bad = None
             for obs, s1 in path_to(target):
                 trail.append(obs)
-                got = await ex.step(obs)
-                bad = ex.check(obs, g.states[s1]["enc"], got)
+                try:
+                    got = await ex.step(obs)
+                    bad = ex.check(obs, g.states[s1]["enc"], got)
+                except Exception as e:  # noqa: BLE001 - an unexpected exception out of a harness call is an observation
+                    bad = ("unexpected-exception", "none", type(e).__name__, ex.props_for_unexpected(obs))
                 stats["prefix_steps"] += 1
                 if bad:
                     break
@@ -117,8 +120,11 @@ def _walk_part(args):
                 i = todo[cur].pop()
                 obs, tk = g.states[cur]["edges"][i]
                 trail.append(obs)
-                got = await ex.step(obs)
-                bad = ex.check(obs, g.states[tk]["enc"], got)
+                try:
+                    got = await ex.step(obs)
+                    bad = ex.check(obs, g.states[tk]["enc"], got)
+                except Exception as e:  # noqa: BLE001
+                    bad = ("unexpected-exception", "none", type(e).__name__, ex.props_for_unexpected(obs))
                 stats["edges"] += 1
                 if bad:
                     mism.append((sorted(bad[3]), bad[0], obs, repr(bad[1]), repr(bad[2]), list(trail)))
